@@ -61,7 +61,7 @@ Proof.
 Qed.
 
 Lemma calc_cases n fs :
-  sumN (map fixed_part fs) < 4294967296 -> forallb nonzero_block fs = true ->
+  sumN (map fixed_part fs) < 4294967296 ->
   match calc n fs with
   | FixedSz =>
     filter is_var_string fs = [] /\ filter is_var_group fs = [] /\ sumN (map fixed_part fs) = n
@@ -76,7 +76,7 @@ Lemma calc_cases n fs :
   | _ => True
   end.
 Proof.
-  intros Hsum Hnz. unfold calc. rewrite (u32_id _ Hsum).
+  intros Hsum. unfold calc. rewrite (u32_id _ Hsum).
   set (fsum := sumN (map fixed_part fs)) in *.
   destruct (n <? fsum) eqn:E0; [exact I|]. apply N.ltb_ge in E0.
   remember (filter is_var_string fs) as vs eqn:Evs.
@@ -98,11 +98,12 @@ Proof.
     destruct (is_var_group_spec x Hx) as (mn & mx & gfs & -> & Hnf).
     cbn [len length N.of_nat Pos.of_succ_nat N.add N.eqb Pos.eqb].
     destruct (fixed_block (FGroup mn mx gfs)) eqn:Efb; cbn [negb]; [|exact I].
+    destruct (block_size (FGroup mn mx gfs) =? 0) eqn:Eb; [apply N.eqb_eq in Eb|apply N.eqb_neq in Eb].
+    { destruct (0 <? n - fsum) eqn:Er; [exact I|]. apply N.ltb_ge in Er.
+      destruct (0 <? mn); [exact I|].
+      exists mn, mx, gfs. repeat split; try assumption. rewrite Eb. lia. }
     destruct (limited_size (FGroup mn mx gfs) &&
               (u32 (block_size (FGroup mn mx gfs) * u32z mx) <? n - fsum)); [exact I|].
-    rewrite forallb_forall in Hnz. specialize (Hnz _ Hin). unfold nonzero_block in Hnz.
-    rewrite Hnf in Hnz. cbn [orb] in Hnz.
-    destruct (block_size (FGroup mn mx gfs) =? 0) eqn:Eb; [discriminate|]. apply N.eqb_neq in Eb.
     destruct ((n - fsum) mod block_size (FGroup mn mx gfs) =? 0) eqn:Em; cbn [negb]; [|exact I].
     apply N.eqb_eq in Em.
     destruct ((n - fsum) / block_size (FGroup mn mx gfs) <? mn); [exact I|].
@@ -180,9 +181,9 @@ Lemma inflate_spec prev fs bs :
   wf_desc fs = true -> bytes_ok bs = true -> len bs < 4294967296 -> outcome_ok prev fs bs.
 Proof.
   intros Hwf Hbs Hlen. unfold wf_desc in Hwf.
-  apply andb_prop in Hwf as [Hwf Hsum]. apply andb_prop in Hwf as [Hsane Hnz].
+  apply andb_prop in Hwf as [Hsane Hsum].
   apply N.ltb_lt in Hsum.
-  pose proof (calc_cases (len bs) fs Hsum Hnz) as C.
+  pose proof (calc_cases (len bs) fs Hsum) as C.
   unfold outcome_ok, layout, shape_layout, inflate.
   rewrite forallb_forall in Hsane.
   destruct (calc (len bs) fs) as [| | |k|k| | | | |]; try reflexivity; try contradiction.
